@@ -122,6 +122,32 @@ class NativeWorld:
         self.consts[name] = v
         return v
 
+    def _tofloat(self, v):
+        if isinstance(v, str):
+            v = v.replace("?", "")
+            if "/" in v:
+                a, b = v.split("/")
+                return float(a) / float(b)
+            return float(v)
+        return float(v)
+
+    def _table(self, fname):
+        return (self.m.get("__funcs__") or {}).get(fname)
+
+    def _data(self, fname, shape):
+        """numpy data for a field: the solver model's interpretation when there is one (the
+        counterexample itself), else an injective index encoding"""
+        t = self._table(fname)
+        off, sg = self._off(fname)
+        if t is None or len(shape) == 0:
+            return _np_field(shape, off, sg)
+        a = np.full(shape, self._tofloat(t["else"]))
+        for row in t["entries"]:
+            pos = tuple(int(x) for x in row[:-1])
+            if len(pos) == len(shape) and all(0 <= p < n for p, n in zip(pos, shape)):
+                a[pos] = self._tofloat(row[-1])
+        return a
+
     def _off(self, fname):
         if fname not in self.fields:
             self._k += 1
@@ -134,12 +160,12 @@ class NativeWorld:
         cs = {}
         for name, cd in (coords or {}).items():
             off, sg = self._off(f"coord_{name}")
-            a = _np_field(tuple(dims[d] for d in cd), off, sg)
+            a = self._data(f"coord_{name}", tuple(dims[d] for d in cd))
             cs[name] = xr.Variable(tuple(cd), a, attrs=(coord_attrs or {}).get(name, {"tokattr": f"ds-attrs-{name}"}))
         dv = {}
         for name, vd in (data_vars or {}).items():
             off, sg = self._off(f"var_{name}")
-            dv[name] = xr.Variable(tuple(vd), _np_field(tuple(dims[d] for d in vd), off, sg))
+            dv[name] = xr.Variable(tuple(vd), self._data(f"var_{name}", tuple(dims[d] for d in vd)))
         ds = xr.Dataset(dv, coords=cs, attrs=attrs)
         # dimensions without coordinate still need to exist
         for d, n in dims.items():
@@ -152,7 +178,7 @@ class NativeWorld:
 
         off, sg = self._off(name)
         shape = tuple(ds.sizes[d] for d in dims)
-        a = xr.DataArray(_np_field(shape, off, sg), dims=tuple(dims), name=name)
+        a = xr.DataArray(self._data(name, shape), dims=tuple(dims), name=name)
         if with_coords:
             a = a.assign_coords({k: v for k, v in ds.coords.items() if all(d in dims for d in v.dims)})
         if dask is not None:
@@ -171,6 +197,14 @@ class NativeWorld:
         for fname, (fn, vd) in symworld.fields.items():
             off, sg = self._off(fname)
             if len(vd) == 0:
+                continue
+            t = self._table(fname)
+            if t is not None:
+                body = z3.RealVal(str(t["else"]).replace("?", ""))
+                for row in reversed(t["entries"]):
+                    cond = z3.And(*[z3.Var(k, z3.IntSort()) == int(x) for k, x in enumerate(row[:-1])])
+                    body = z3.If(cond, z3.RealVal(str(row[-1]).replace("?", "")), body)
+                funs.append((fn, body))
                 continue
             e = z3.IntVal(0)
             for k in range(len(vd)):
@@ -208,17 +242,44 @@ def evalnum(t, subs, funs):
     raise ValueError(f"term did not evaluate to a number: {t}")
 
 
+def _numstr(v):
+    if z3.is_int_value(v):
+        return v.as_long()
+    if z3.is_rational_value(v):
+        return str(v)
+    return None
+
+
 def model_values(model):
+    """constants and (finite) function interpretations of a z3 model, JSON-able"""
     vals = {}
     if model is None:
         return vals
+    funcs = {}
     for d in model.decls():
         if d.arity() == 0:
-            v = model[d]
-            if z3.is_int_value(v):
-                vals[d.name()] = v.as_long()
-            elif z3.is_rational_value(v):
-                vals[d.name()] = str(v)
+            x = _numstr(model[d])
+            if x is not None:
+                vals[d.name()] = x
+        else:
+            try:
+                fi = model[d]
+                lst = fi.as_list()
+                ent = []
+                ok = True
+                for e in lst[:-1]:
+                    row = [_numstr(x) for x in e]
+                    if any(x is None for x in row):
+                        ok = False
+                        break
+                    ent.append(row)
+                els = _numstr(lst[-1]) if z3.is_expr(lst[-1]) else None
+                if ok and els is not None and len(ent) <= 400:
+                    funcs[d.name()] = {"entries": ent, "else": els}
+            except Exception:  # noqa
+                pass
+    if funcs:
+        vals["__funcs__"] = funcs
     return vals
 
 
